@@ -47,6 +47,8 @@ TRUSTED_BASE = [
     "hand-written Gallina models under coq/Model (definitions only) — tied to the code by the differential correspondence check, which is sampling",
     "cfg-guarded hook interpreters in /repo (quinn-proto/src/**/verif_hooks) and the qvh harness binary",
     "python driver lib/qv.py, generators under comps/, Lib/Corr.v comparison function",
+    "trace monitors (coq/Sys/Mon*.v) are run as OCaml extracted with ExtrOcamlBasic only (its Extract Inductive for bool, option, unit, list, prod, sumbool; no Extract Constant; Z kept as the extracted inductive) + hand-written monitor/driver.ml (parsing/printing); ocamlfind ocamlopt 4.13.1",
+    "simulator harness/src/sim.rs (virtual time, seeded network, scripted applications) and its read-only probe hook",
 ]
 
 
@@ -335,7 +337,7 @@ def props_build(pid):
 
 
 def coq_eval_cases(module, cases, outs, workdir, shard=250, run_name="run", oracle_name="oracle",
-                   timeout=1200):
+                   timeout=1200, trace=False):
     """Evaluate `failures <module>.run <module>.oracle` over (case, impl outs) pairs.
     Returns (failures: list of (index, code), errors: list of str)."""
     os.makedirs(workdir, exist_ok=True)
@@ -353,7 +355,11 @@ def coq_eval_cases(module, cases, outs, workdir, shard=250, run_name="run", orac
             f.write("Definition cases : list (ops * outs) := [\n")
             f.write(";\n".join(f"({coq_ll(cases[i])}, {coq_ll(outs[i])})" for i in sh_idx))
             f.write("\n].\n")
-            f.write(f"Eval vm_compute in (failures {short}.{run_name} {short}.{oracle_name} cases).\n")
+            if trace:
+                f.write("Require Import QV.Sys.Trace.\n")
+                f.write(f"Eval vm_compute in (trace_failures {short}.{run_name} cases).\n")
+            else:
+                f.write(f"Eval vm_compute in (failures {short}.{run_name} {short}.{oracle_name} cases).\n")
         files.append((path, sh_idx))
     failures, errors = [], []
     running = []
@@ -378,7 +384,7 @@ def coq_eval_cases(module, cases, outs, workdir, shard=250, run_name="run", orac
                     errors.append(f"unparsable coqc output on {path}: {out[-500:]}")
                     continue
                 for a, b in re.findall(r"\((\d+),\s*(\d+)\)", m.group(1)):
-                    failures.append((sh_idx[int(a)], int(b)))
+                    failures.append((sh_idx[int(a)], 2 if trace else int(b), int(b)))
             else:
                 still.append((p, path, sh_idx, t0))
         running = still
@@ -391,6 +397,80 @@ def coq_eval_cases(module, cases, outs, workdir, shard=250, run_name="run", orac
                              stdout=subprocess.PIPE, stderr=subprocess.STDOUT, text=True)
         running.append((p, path, sh_idx, time.time()))
     reap(True)
+    failures.sort()
+    return failures, errors
+
+
+def build_mondriver():
+    """(Re)build the OCaml driver extracted from coq/Sys/Mon*.v when any source is newer."""
+    md = os.path.join(VERIF, "monitor")
+    drv = os.path.join(md, "mondriver")
+    with Lock("mon"):
+        srcs = [os.path.join(COQ, "Sys", f) for f in os.listdir(os.path.join(COQ, "Sys")) if f.endswith(".v")]
+        srcs += [os.path.join(md, "driver.ml"), os.path.join(md, "build.sh"), os.path.join(COQ, "Lib", "Corr.v")]
+        newest = max(os.path.getmtime(x) for x in srcs)
+        if os.path.exists(drv) and os.path.getmtime(drv) >= newest:
+            return True, drv, ""
+        mods = sorted("Sys/" + f[:-2] + ".vo" for f in os.listdir(os.path.join(COQ, "Sys")) if f.endswith(".v"))
+    ok, out = coq_make(mods)
+    if not ok:
+        return False, drv, out
+    with Lock("mon"):
+        rc, out = sh(["sh", os.path.join(md, "build.sh")], timeout=900)
+    return rc == 0, drv, out
+
+
+def mon_eval_cases(module, cases, outs, timeout=1200):
+    """Evaluate the extracted monitor `<module>.monitor` on (scenario, trace) pairs.
+    Returns (failures [(case index, 2, record index)], errors)."""
+    ok, drv, blog = build_mondriver()
+    if not ok:
+        return [], ["monitor driver build failed: " + blog[-1500:]]
+    short = module.split(".")[-1]
+    n = min(NPROC, max(1, len(cases)))
+    idxs = list(range(len(cases)))
+    chunks = [idxs[i::n] for i in range(n)]
+    procs = []
+    for ch in chunks:
+        if not ch:
+            continue
+        buf = []
+        for i in ch:
+            for op in cases[i]:
+                buf.append(" ".join(str(x) for x in op))
+            buf.append("=")
+            for r in outs[i]:
+                buf.append(" ".join(str(x) for x in r))
+            buf.append("#")
+        p = subprocess.Popen([drv, short], stdin=subprocess.PIPE, stdout=subprocess.PIPE,
+                             stderr=subprocess.PIPE, text=True)
+        procs.append((p, ch, "\n".join(buf) + "\n"))
+    import threading
+    results = {}
+
+    def work(p, ch, data):
+        try:
+            out, err = p.communicate(data, timeout=timeout)
+            results[id(p)] = (p.returncode, out, err)
+        except subprocess.TimeoutExpired:
+            p.kill()
+            results[id(p)] = ("timeout", "", "")
+
+    ths = [threading.Thread(target=work, args=a) for a in procs]
+    for t in ths:
+        t.start()
+    for t in ths:
+        t.join()
+    failures, errors = [], []
+    for (p, ch, _) in procs:
+        rc, out, err = results[id(p)]
+        lines = out.split()
+        if rc != 0 or len(lines) != len(ch):
+            errors.append(f"monitor driver {short}: rc={rc} answered {len(lines)}/{len(ch)} {err[-300:]}")
+            continue
+        for i, l in zip(ch, lines):
+            if int(l) >= 0:
+                failures.append((i, 2, int(l)))
     failures.sort()
     return failures, errors
 
